@@ -14,7 +14,8 @@
      lists contain no comments, so "a comment was created" is a failure;
    - a numeric literal must not be immediately followed by an IdentifierStart
      or a decimal digit (12.9.3), otherwise None.
-   Restrictions (stated in the theorems' hypotheses): ASCII; regular
+   Restrictions (stated in the theorems' hypotheses): ASCII (identifiers may contain
+   \u escapes); regular
    expression bodies without "\", "[" and line terminators; decimal literals
    without exponent.  White space is U+0020 only (the fragment has no line
    breaks), so "start of line" is true only for the first token. *)
@@ -43,6 +44,49 @@ Fixpoint prefix_b (p s : list Z) : bool :=
   | [], _ => true
   | a :: p', b :: s' => (a =? b) && prefix_b p' s'
   | _ :: _, [] => false
+  end.
+
+(* 12.7 IdentifierName with UnicodeEscapeSequence: after the backslash, "u{" HexDigits "}" or
+   "u" Hex4Digits.  (Whether the escaped code point has ID_Start/ID_Continue is not checked.) *)
+Definition hexd (c : Z) : bool :=
+  ((48 <=? c) && (c <=? 57)) || ((97 <=? c) && (c <=? 102)) || ((65 <=? c) && (c <=? 70)).
+Definition lex_escape (s : list Z) : option (list Z * list Z) :=
+  match s with
+  | u :: r =>
+      if u =? 117 then
+        match r with
+        | ob :: r2 =>
+            if ob =? 123 then
+              let '(h, r3) := span hexd r2 in
+              match h, r3 with
+              | _ :: _, cb :: r4 => if cb =? 125 then Some ([117; 123] ++ h ++ [125], r4) else None
+              | _, _ => None
+              end
+            else
+              match r with
+              | a :: b :: c :: d :: r5 => if hexd a && hexd b && hexd c && hexd d then Some ([117; a; b; c; d], r5) else None
+              | _ => None
+              end
+        | [] => None
+        end
+      else None
+  | [] => None
+  end.
+Fixpoint span_id (fuel : nat) (s : list Z) : option (list Z * list Z) :=
+  match fuel with
+  | O => None
+  | S n =>
+    match s with
+    | c :: r =>
+        if id_part c then match span_id n r with Some (a, b) => Some (c :: a, b) | None => None end
+        else if c =? 92 then
+          match lex_escape r with
+          | Some (e, r') => match span_id n r' with Some (a, b) => Some (92 :: e ++ a, b) | None => None end
+          | None => None
+          end
+        else Some ([], s)
+    | [] => Some ([], [])
+    end
   end.
 
 (* 12.8: all punctuators of ES2023 (including "}" and the division ones) *)
@@ -87,7 +131,11 @@ Definition lex1 (cx : ctx) (s : list Z) : option (tok * list Z) :=
   | [] => None
   | c :: s1 =>
     if comment_start (line_start cx) s then None
-    else if id_start c then let '(w, r) := span id_part s in Some (TId w, r)
+    else if id_start c || (c =? 92) then
+      match span_id (S (List.length s)) s with
+      | Some (w, r) => match w with [] => None | _ => Some (TId w, r) end
+      | None => None
+      end
     else if digit c || ((c =? 46) && (match s1 with d :: _ => digit d | [] => false end)) then
       let '(ip, r1) := span digit s in
       let '(lexeme, r2) :=
